@@ -10,3 +10,4 @@ import SphericalVerif.Props.GenCPow
 #print axioms C14.cpow_entry1
 #print axioms GenCPow.gen_cpow_exact
 #print axioms GenCPow.gen_cpow_entry0
+#print axioms GenCPow.gen_cpow_entry1
